@@ -570,6 +570,20 @@ def observe_net(case):
                         new = guarded(lambda: sorted(fresh.find_lanelet_by_shape(s2)))
                         if used != new:
                             diffs.append([[dx, dy], used, new])
+                    # ... and a unit box that touches the leftmost edge of a lanelet exactly, then the same box 4e-11 off
+                    rings_now = current_rings(net)
+                    if rings_now:
+                        ring = rings_now[sorted(rings_now)[0]]
+                        xmin = min(p_[0] for p_ in ring)
+                        ys = [p_[1] for p_ in ring if p_[0] == xmin]
+                        if ys:
+                            box = Rectangle(1.0, 1.0, np.array([xmin - 0.5, (min(ys) + max(ys)) / 2.0]), 0.0)
+                            guarded(lambda: net.find_lanelet_by_shape(box))
+                            off = box.translate_rotate(np.array([-4e-11, 0.0]), 0.0)
+                            used = guarded(lambda: sorted(net.find_lanelet_by_shape(off)))
+                            new = guarded(lambda: sorted(fresh.find_lanelet_by_shape(off)))
+                            if used != new:
+                                diffs.append([["touching box", -4e-11], used, new])
                     entry["near"] = diffs
                 except Exception:  # noqa - copying is judged by its own route
                     entry["near"] = []
